@@ -81,7 +81,73 @@ impl log::Log for LogSink {
     fn flush(&self) {}
 }
 
+/// Thread history that must not matter (run before every case, on the thread that logs the case's
+/// probes): (a) three log calls that leave `Logger::log` by unwinding - an appender panics, the panic
+/// is caught by the caller, as a worker pool does; (b) a record whose appender logs a follow-up record
+/// through the same logger, 12 levels deep: every level is an ordinary record and is delivered.
+/// Some(text) when (b) is not delivered 13 times.
+fn thread_history() -> Option<String> {
+    use std::sync::atomic::{AtomicUsize, Ordering};
+    use std::sync::{Arc, OnceLock};
+    #[derive(Debug)]
+    struct Boom;
+    impl log4rs::append::Append for Boom {
+        fn append(&self, _r: &log::Record) -> anyhow::Result<()> {
+            panic!("appender panics")
+        }
+        fn flush(&self) {}
+    }
+    static DEEP_CALLS: AtomicUsize = AtomicUsize::new(0);
+    static PRIVATE: OnceLock<Arc<log4rs::Logger>> = OnceLock::new();
+    #[derive(Debug)]
+    struct Deep;
+    impl log4rs::append::Append for Deep {
+        fn append(&self, r: &log::Record) -> anyhow::Result<()> {
+            DEEP_CALLS.fetch_add(1, Ordering::SeqCst);
+            let k: usize = r.args().to_string().parse().unwrap_or(0);
+            if k > 0 {
+                if let Some(l) = PRIVATE.get() {
+                    l.log(&log::Record::builder().level(log::Level::Error).target("deep").args(format_args!("{}", k - 1)).build());
+                }
+            }
+            Ok(())
+        }
+        fn flush(&self) {}
+    }
+    let logger = PRIVATE.get_or_init(|| {
+        let config = Config::builder()
+            .appender(Appender::builder().build("boom", Box::new(Boom)))
+            .appender(Appender::builder().build("deep", Box::new(Deep)))
+            .logger(Logger::builder().additive(false).appender("boom").build("boom", log::LevelFilter::Trace))
+            .logger(Logger::builder().additive(false).appender("deep").build("deep", log::LevelFilter::Trace))
+            .build(Root::builder().build(log::LevelFilter::Off))
+            .expect("private config");
+        Arc::new(log4rs::Logger::new_with_err_handler(config, Box::new(|_e: &anyhow::Error| {})))
+    });
+    for _ in 0..3 {
+        let r = std::panic::catch_unwind(std::panic::AssertUnwindSafe(|| {
+            logger.log(&log::Record::builder().level(log::Level::Error).target("boom::x").args(format_args!("p")).build());
+        }));
+        if r.is_ok() {
+            return Some("a panicking appender did not unwind out of Logger::log".to_string());
+        }
+    }
+    DEEP_CALLS.store(0, Ordering::SeqCst);
+    logger.log(&log::Record::builder().level(log::Level::Error).target("deep").args(format_args!("12")).build());
+    let n = DEEP_CALLS.load(Ordering::SeqCst);
+    if n != 13 {
+        return Some(format!(
+            "a record logged from inside an appender, 12 levels deep: {} of 13 records delivered (same thread, after earlier log calls that unwound)",
+            n
+        ));
+    }
+    None
+}
+
 fn run(case: &Val) -> Val {
+    if let Some(bad) = thread_history() {
+        return Val::L(vec![Val::text(&bad)]);
+    }
     let c = case.l();
     let rec = new_rec();
     let logkind: Vec<usize> = if c.len() > 6 { c[6].l().iter().map(|v| v.u()).collect() } else { vec![] };
